@@ -163,7 +163,7 @@ func (g *rcGenState) genBind() rcNode {
 	if r.Intn(4) == 0 {
 		n.Macro = true
 		var sb strings.Builder
-		l := 1 + r.Intn(6)
+		l := r.Intn(7) // (an empty body makes the key a no-op)
 		for i := 0; i < l; i++ {
 			rs, t := g.genKeyNotation(true)
 			n.MacroV = append(n.MacroV, rs...)
